@@ -1,0 +1,76 @@
+//go:build verif && (darwin || freebsd || linux || openbsd)
+
+package dhcpd
+
+import (
+	"maps"
+	"net/netip"
+
+	"github.com/AdguardTeam/AdGuardHome/internal/dhcpsvc"
+)
+
+// This file is only compiled with the "verif" build tag.  It adds what the
+// external deterministic-simulation harness (engine E4 dhcpsim, concurrent
+// phase) needs to make a second server an exact copy of a first one, and
+// changes nothing in the shipped build.
+
+// VerifV4CopyStateFrom makes the DHCPv4 lease state of s a deep copy of that
+// of src, which must be a server returned by [Create]: the lease slice in the
+// same order, the hostname and address indexes pointing to the copies of the
+// very leases they point to in src (also when such a lease is no longer in
+// the slice), and the pool bitset.  It reports whether both servers have a
+// configured DHCPv4 server.  Nothing is stored.
+func (s *server) VerifV4CopyStateFrom(src any) (ok bool) {
+	o, _ := src.(*server)
+	if o == nil {
+		return false
+	}
+
+	d4, s4 := s.verifV4(), o.verifV4()
+	if d4 == nil || s4 == nil {
+		return false
+	}
+
+	s4.leasesLock.Lock()
+	defer s4.leasesLock.Unlock()
+
+	d4.leasesLock.Lock()
+	defer d4.leasesLock.Unlock()
+
+	copies := map[*dhcpsvc.Lease]*dhcpsvc.Lease{}
+	cp := func(l *dhcpsvc.Lease) (c *dhcpsvc.Lease) {
+		if l == nil {
+			return nil
+		}
+
+		c, has := copies[l]
+		if !has {
+			c = l.Clone()
+			copies[l] = c
+		}
+
+		return c
+	}
+
+	d4.leases = make([]*dhcpsvc.Lease, 0, len(s4.leases))
+	for _, l := range s4.leases {
+		d4.leases = append(d4.leases, cp(l))
+	}
+
+	d4.hostsIndex = make(map[string]*dhcpsvc.Lease, len(s4.hostsIndex))
+	for h, l := range s4.hostsIndex {
+		d4.hostsIndex[h] = cp(l)
+	}
+
+	d4.ipIndex = make(map[netip.Addr]*dhcpsvc.Lease, len(s4.ipIndex))
+	for ip, l := range s4.ipIndex {
+		d4.ipIndex[ip] = cp(l)
+	}
+
+	d4.leasedOffsets = nil
+	if s4.leasedOffsets != nil {
+		d4.leasedOffsets = &bitSet{words: maps.Clone(s4.leasedOffsets.words)}
+	}
+
+	return true
+}
